@@ -2,7 +2,7 @@
 import z3
 from vp.contract import contract
 from vp.values import *   # noqa
-from .schema import PathEntry, Entry
+from .schema import PathEntry, Entry, FileEntry
 
 STR = z3.StringVal
 
@@ -29,8 +29,31 @@ def _(c):
 
 @contract('gemato/manifest.py', 'ManifestPathEntry.__eq__', props=['C12', 'C08'])
 def _(c):
-    c.params(self=PathEntry, other=PathEntry)
+    # `other` is any entry a Manifest can hold: list.remove()/`in` compare an entry with every element in front of it, so the
+    # comparison must be total over all entry classes (C18: no AttributeError for IGNORE / TIMESTAMP operands)
+    c.params(self=PathEntry, other=Entry)
     c.returns(Bool)
     c.only_raises()
     c.inline = True
-    c.ensures('same-tag-and-path', lambda s: s.result == z3.And(s.self.tag == s.other.tag, s.self.path == s.other.path))
+    c.ensures('different-tags-differ', lambda s: z3.Implies(s.self.tag != s.other.tag, z3.Not(s.result)))
+    c.ensures('same-tag-and-path',
+              lambda s: z3.Implies(s.self.tag == s.other.tag, s.result == (s.self.path == s.other.path)))
+
+
+@contract('gemato/manifest.py', 'ManifestEntryTIMESTAMP.__eq__', props=['C18', 'C12'])
+def _(c):
+    c.params(self=Obj('ManifestEntryTIMESTAMP'), other=Entry)
+    c.returns(Bool)
+    c.only_raises()
+    c.ensures('different-tags-differ', lambda s: z3.Implies(s.self.tag != s.other.tag, z3.Not(s.result)))
+
+
+@contract('gemato/manifest.py', 'ManifestFileEntry.__eq__', props=['C18', 'C12', 'C03'])
+def _(c):
+    c.params(self=FileEntry, other=Entry)
+    c.returns(Bool)
+    c.only_raises()
+    c.ensures('different-tags-differ', lambda s: z3.Implies(s.self.tag != s.other.tag, z3.Not(s.result)))
+    c.ensures('equal-needs-same-path-and-size',
+              lambda s: z3.Implies(s.result, z3.And(s.self.tag == s.other.tag, s.self.path == s.other.path,
+                                                    s.self.size == s.other.size)))
